@@ -37,10 +37,13 @@ def work(patch):
 patches = sorted(glob.glob(os.path.join(os.path.abspath(a.dir), "*", "r*", "patch.diff")))
 if a.only:
     patches = [p for p in patches if any(("/" + x + "/") in p for x in a.only.split(","))]
-with ProcessPoolExecutor(a.jobs) as ex:
-    rows = list(ex.map(work, patches))
+rows = []
 bad = 0
-for name, st, viol, errs in rows:
+import sys as _sys
+_ex = ProcessPoolExecutor(a.jobs)
+for name, st, viol, errs in _ex.map(work, patches):
+    rows.append((name, st, viol, errs))
+    _sys.stdout.flush()
     tag = "SILENT" if not viol and not errs else ("FALSE-ALARM" if viol else "REFUSED")
     bad += bool(viol)
     print(f"{name}: {st} {tag}")
